@@ -9,6 +9,7 @@ pub mod c04;
 pub mod c05;
 pub mod c06;
 pub mod c07;
+pub mod c08;
 pub mod c09;
 pub mod c10;
 pub mod c11;
@@ -21,7 +22,7 @@ pub mod c19;
 pub mod c20;
 pub mod gprog;
 
-pub const ALL: &[&str] = &["C01", "C02", "C03", "C04", "C05", "C06", "C07", "C09", "C10", "C11", "C12", "C13", "C14", "C15", "C16", "C19", "C20"];
+pub const ALL: &[&str] = &["C01", "C02", "C03", "C04", "C05", "C06", "C07", "C08", "C09", "C10", "C11", "C12", "C13", "C14", "C15", "C16", "C19", "C20"];
 
 pub fn intern(id: &str) -> Option<&'static str> {
     ALL.iter().copied().find(|p| *p == id)
@@ -43,6 +44,7 @@ pub fn meta(prop: &str) -> Option<Meta> {
         "C05" => Some(c05::meta()),
         "C06" => Some(c06::meta()),
         "C07" => Some(c07::meta()),
+        "C08" => Some(c08::meta()),
         "C09" => Some(c09::meta()),
         "C10" => Some(c10::meta()),
         "C11" => Some(c11::meta()),
@@ -66,6 +68,7 @@ pub fn spaces(prop: &str, tier: Tier, seed: u64) -> Vec<Box<dyn Space>> {
         "C05" => c05::spaces(tier, seed),
         "C06" => c06::spaces(tier, seed),
         "C07" => c07::spaces(tier, seed),
+        "C08" => c08::spaces(tier, seed),
         "C09" => c09::spaces(tier, seed),
         "C10" => c10::spaces(tier, seed),
         "C11" => c11::spaces(tier, seed),
